@@ -24,6 +24,8 @@ inductive Exc
   /-- not a Python exception: the translation reached an operation whose Python meaning the prelude does not define
       (e.g. `sub in stream`).  A theorem "translation = model" whose model side never yields it proves it unreachable. -/
   | unmodelled
+  /-- not a Python exception: a `while` loop was still running when the fuel the translation gives it ran out -/
+  | outOfFuel
 deriving DecidableEq, Repr, Inhabited
 
 abbrev M := Except Exc
@@ -158,6 +160,11 @@ def strInFileArg {IO : Type} (sub : Str) : FileArg IO → M Bool
   | .path s => pure (contains sub s)
   | .io _ => throw .unmodelled
 
+/-- reading a local that may be unbound on the path taken: UnboundLocalError -/
+def boundLocal {α : Type} : Option α → M α
+  | some a => pure a
+  | none => throw (.named "UnboundLocalError")
+
 /-! ### truthiness -/
 class Truthy (α : Type) where
   truthy : α → Bool
@@ -267,5 +274,69 @@ class FloatOps (F : Type) where
   intPow : Int → Int → F
   mul : F → F → F
   sub : F → F → F
+
+/-- further float operations of the translated orbital code (uninterpreted, like `FloatOps`) -/
+class FloatArith (F : Type) where
+  add : F → F → F
+  div : F → F → F
+  /-- `x ** n` for a non-negative `int` literal n -/
+  powNat : F → Nat → F
+  /-- `np.abs(x)` / `abs(x)` -/
+  abs : F → F
+  /-- `a > b` (false when a NaN is involved) -/
+  gt : F → F → Bool
+  /-- `a < b` -/
+  lt : F → F → Bool
+  /-- `a <= b` -/
+  le : F → F → Bool
+  /-- `a >= b` -/
+  ge : F → F → Bool
+  /-- `max(a, b)`: `b if b > a else a` (an `int` operand is held as the float of the same value) -/
+  max : F → F → F
+  /-- `min(a, b)`: `b if b < a else a` -/
+  min : F → F → F
+  /-- a float literal of the source: the decimal `mantissa * 10 ^ exponent` written there -/
+  lit : Nat → Int → F
+  /-- `int(x)`: truncation toward zero (ValueError / OverflowError on nan / inf are not modelled) -/
+  toInt : F → Int
+
+/-- `numpy.datetime64` / `numpy.timedelta64` arithmetic of the translated code (uninterpreted) -/
+class TimeOps (T TD : Type) where
+  /-- `t1 - t2` -/
+  diff : T → T → TD
+  /-- `t + d` -/
+  add : T → TD → T
+  /-- `t - d` -/
+  sub : T → TD → T
+  /-- `d / k` for an `int` literal k (timedelta64 division truncates to the unit) -/
+  divInt : TD → Int → TD
+  /-- `np.timedelta64(k, unit)` -/
+  td : Int → String → TD
+
+/-! ### objects with attributes that may be absent: a heap of slots with a trace of the loads and stores
+
+A computation over a heap `σ`: exceptions do not undo what was done to the heap before them (unlike `StateT σ M`). -/
+def MS (σ α : Type) := σ → Except Exc α × σ
+
+instance {σ : Type} : Monad (MS σ) where
+  pure a := fun s => (Except.ok a, s)
+  bind x f := fun s =>
+    match x s with
+    | (Except.ok a, s') => f a s'
+    | (Except.error e, s') => (Except.error e, s')
+
+instance {σ : Type} : MonadExcept Exc (MS σ) where
+  throw e := fun s => (Except.error e, s)
+  tryCatch x h := fun s =>
+    match x s with
+    | (Except.ok a, s') => (Except.ok a, s')
+    | (Except.error e, s') => h e s'
+
+/-- the whole heap (used to roll a transaction back) -/
+def heapGet {σ : Type} : MS σ σ := fun s => (Except.ok s, s)
+def heapSet {σ : Type} (s' : σ) : MS σ Unit := fun _ => (Except.ok (), s')
+
+/-- a computation that does not touch the heap -/
+instance {σ : Type} : MonadLift (Except Exc) (MS σ) := ⟨fun x s => (x, s)⟩
 
 end PV.Py
